@@ -639,7 +639,7 @@ func c09Mirror(p *Prog, r *Report) {
 					continue
 				}
 				env := &Env{P: p, Pkg: fi.Pkg, Vars: map[types.Object]*Val{}}
-				env.Vars[recv] = &Val{Ptr: &Val{Fields: map[string]*Val{fileFields.Flag: boolVal(!searchable), fileFields.Arr: {Tag: "arr"}, fileFields.List: {Tag: "l"}}}}
+				env.Vars[recv] = &Val{Ptr: &Val{Fields: map[string]*Val{fileFields.Flag: fileFlagVal(p, !searchable), fileFields.Arr: {Tag: "arr"}, fileFields.List: {Tag: "l"}}}}
 				for _, fld := range fi.Decl.Type.Params.List {
 					for _, nm := range fld.Names {
 						env.Vars[info.Defs[nm]] = &Val{Ptr: &Val{Tag: "node"}}
@@ -710,7 +710,14 @@ func c09Mirror(p *Prog, r *Report) {
 							listCalled = true
 						}
 						if idn, ok := c.Fun.(*ast.Ident); ok && idn.Name == "copy" && len(c.Args) == 2 && shapeOf(c.Args[1]) == "reslice-from-1" {
-							if isArr(c.Args[0]) {
+							dst := ast.Unparen(c.Args[0])
+							// the whole mirror as destination: arr, or arr[at:] with at evaluating to 0
+							if se, isSl := dst.(*ast.SliceExpr); isSl && isArr(se.X) && se.High == nil && se.Max == nil && se.Low != nil {
+								if lo, okLo := evalInt(se.Low); okLo && lo == 0 {
+									dst = se.X
+								}
+							}
+							if isArr(dst) {
 								shape += "shift;"
 							}
 						}
